@@ -49,3 +49,29 @@ Definition inv (c : conn) : Prop :=
   (c_state c = TERMINATED <-> c_close_at c = None) /\
   (c_client c = true -> c_connect_called c = true) /\
   (forall k, c_close_event c = Some k -> is_term_kind k).
+
+(* ---- the close round (C09 strengthening: a close round that emits nothing) ---- *)
+
+(* no datagrams_to_send among these ops *)
+Fixpoint no_send (ops : list op) : Prop :=
+  match ops with
+  | [] => True
+  | OSend _ _ _ _ :: _ => False
+  | _ :: t => no_send t
+  end.
+
+(* every handle_timer among these ops fires before d *)
+Fixpoint timers_before (d : Z) (ops : list op) : Prop :=
+  match ops with
+  | [] => True
+  | OTimer w :: t => w < d /\ timers_before d t
+  | _ :: t => timers_before d t
+  end.
+
+(* the connection after datagrams_to_send, for a given position of the close-sent transition *)
+Definition after_send_at (uncond : bool) (now pto3 : Z) (produced : bool) (nev : Z) (c : conn) : conn :=
+  match send_at uncond now pto3 produced nev c with Ok (_, c') => c' | Err _ => c end.
+
+(* a close is pending on a connection that can transmit *)
+Definition close_round_ready (c : conn) : Prop :=
+  c_close_pending c = true /\ c_has_path c = true /\ is_end (c_state c) = false.
